@@ -124,6 +124,8 @@ impl RequestHandler<DocumentHighlightRequest> for DocumentHighlightRequestHandle
         let defs = ctx.find_definitions(analysis, &params.text_document_position_params);
         let highlights = defs
             .into_iter()
+            // (any position in an imported file lies inside that file's own definition, which is nothing to highlight)
+            .filter(|(ty, _)| matches!(ty, DefinitionType::Symbol(_)))
             .flat_map(|(_, def)| {
                 def.definition_and_usages()
                     .into_iter()
